@@ -733,6 +733,9 @@ package sse
 //@   ensures stops_when_told: forall(x, old(ncalls()), ncalls()-1, isyield(x) ==> cret(x, "yield", 0))
 //@   ensures retry_only_for_valid_values: forall(x, old(ncalls()), ncalls(), iscall(x, "onRetry") ==> carg(x, "onRetry", 0) >= 0)
 //@   ensures clean_end_is_no_error_for_read: ignoreEOF ==> forall(x, old(ncalls()), ncalls(), isyield(x) ==> yielderr(x) != io.EOF)
+//@   ensures pending_event_only_at_a_clean_end: reached(0) ==> forall(x, atexit(0, ncalls()), ncalls(), isyield(x) && yielderr(x) == nil ==> isEOF && atexit(0, dirty) && x == atexit(0, ncalls()))
+//@   ensures pending_event_flushed_at_a_clean_end: reached(0) ==> (isEOF && atexit(0, dirty) ==> ncalls() > atexit(0, ncalls()) && isyield(atexit(0, ncalls())) && yielderr(atexit(0, ncalls())) == nil &&
+//@       yieldev(atexit(0, ncalls())).LastEventID == atexit(0, lastEventID) && yieldev(atexit(0, ncalls())).Type == atexit(0, typ) && eqbytes(yieldev(atexit(0, ncalls())).Data, chomp(atexit(0, sb))))
 //@   ensures ends_with_a_reason: !ignoreEOF && (forall(x, old(ncalls()), ncalls(), isyield(x) ==> cret(x, "yield", 0))) ==> ncalls() > old(ncalls()) && isyield(ncalls()-1) && yielderr(ncalls()-1) != nil
 //@   invariant 0 parser_alive: p != nil && p.fieldScanner != nil && p.inputScanner != nil && !p.fieldScanner.keepComments
 //@   invariant 0 no_error_yielded_yet: forall(x, old(ncalls()), ncalls(), isyield(x) ==> yielderr(x) == nil && cret(x, "yield", 0))
